@@ -2,6 +2,7 @@ package receiver
 
 import (
 	"bytes"
+	"errors"
 	"fmt"
 	"io"
 	"io/fs"
@@ -268,7 +269,10 @@ func (rt *Transfer) recvGenerator(idx int, f *File) error {
 		return nil
 	}
 
-	if os.IsNotExist(err) {
+	if os.IsNotExist(err) ||
+		// In a dry run, the parent directory was not created in place of
+		// a non-directory, so the lookup fails with ENOTDIR.
+		(rt.Opts.DryRun && errors.Is(err, syscall.ENOTDIR)) {
 		return requestFullFile()
 	}
 	if err != nil {
